@@ -113,7 +113,7 @@ type C17Expect struct {
 	Arity      bool  `json:"arity,omitempty"`
 }
 
-func c17Random(s Src, tier string) *Case { return c17Case(s) }
+func c17Random(s Src, tier string) *Case { return applySched(s, c17Case(s), false) }
 
 func c17Systematic(tier string) []*Case {
 	var out []*Case
